@@ -388,6 +388,9 @@ def run(ctx):
     MACRO_DIAG += [('#line 7 "defs.h"\n#define BAD 1 +\n#line 3 "main.c"\nint v = BAD;\n', {('defs.h', 7), ('main.c', 3)}),
                    ('#line 20 "a.h"\n#define S(x) #x\n#define T int\n# 5 "b.c"\nT S(q);\n', {('a.h', 20), ('b.c', 5)}),
                    ('# 1 "x.h" 1\n#define E }\n# 9 "y.c" 2\nint f(void) { return 1; E E\n', {('x.h', 1), ('y.c', 9)})]
+    # an identical (benign) redefinition: the tokens of the replacement list in force are those of the LATEST definition
+    MACRO_DIAG += [('# 1 "a.h" 1\n#define LIMIT (1 + undeclared_)\n# 3 "b.h" 1\n#define LIMIT (1 + undeclared_)\n# 9 "m.c" 2\nint v = LIMIT;\n', {('b.h', 3), ('m.c', 9)}),
+                   ('#define K(x) (x + nothere_)\n\n\n#define K(x) (x + nothere_)\nint w = K(1);\n', {4, 5})]
     for k, (text, lines) in enumerate(MACRO_DIAG):
         path = os.path.join(work, 'md%d.c' % k)
         open(path, 'w').write(text)
@@ -425,6 +428,20 @@ def run(ctx):
     rc, out, e1, p = first_err(src)
     if not e1.startswith('a\\b.c:5:9: error:'):
         ctx.violation('escape sequences in the file name of #line are not decoded: %r (gcc: a\\b.c:5:9)' % e1, src, 'c', key='line-file-escape')
+    # exact locations of diagnostics raised on an operator that is not the first of its chain, on operands spread over lines
+    for src, want in [('struct s { int a; } p; int n, r;\nvoid f(void) {\n\tr = n\n\t\t* 2\n\t\t+ p;\n}\n', ':5:3: error:'),
+                      ('struct s { int a; } p; int n, r;\nvoid f(void) {\n\tr = n + 1 - 2\n\t  - n + n\n\t  % p;\n}\n', ':5:4: error:'),
+                      ('struct s { int a; } p; int n, r;\nvoid f(void) { r = n << 1 >> 2 & p; }\n', ':2:32: error:'),
+                      ('struct s { int a; } p; int n, r;\nvoid f(void) { r = n * 2 * 3\n / p; }\n', ':3:2: error:'),
+                      ('struct s { int a; } p; int n, r;\nvoid f(void) { r = n || n || n\n\n && p; }\n', ':4:2: error:')]:
+        rc, out, e1, p = first_err(src)
+        grc, gout, gerr = sh(['gcc', '-fsyntax-only', '-w', '-ftabstop=1', p], timeout=20)
+        gm = re.search(r'^(.*?):(\d+):(\d+): error:', txt(gerr), re.M)
+        if gm and ':%s:%s: error:' % (gm.group(2), gm.group(3)) != want:
+            ctx.broken('correspondence', 'hand-written operator location vs gcc', 'gcc %s:%s, expected %s for %r' % (gm.group(2), gm.group(3), want, src))
+        stats['diag_programs'] += 1
+        if not e1.startswith(p + want):
+            ctx.violation('a diagnostic about the operands of an operator does not name that operator: %r, expected %s%s' % (e1, os.path.basename(p), want), src, 'c', key='diag:operator-location')
     # regression corpus of fixed defects
     for src, want in [('#line 100\n\nint x = y;\n', ':101:9: error:'), ('# 7 "foo.h" 1\n\n\nint x = y;\n', 'foo.h:9:9: error:'),
                       ('#line 010\nint x = y;\n', ':10:9: error:')]:
